@@ -9,9 +9,9 @@ import simlib
 ID = "C02"
 GEN = []
 CORR_NAME = "interleaved-queries-on-one-simulator"
-RULE = ("one case = one generated problem (same generator as C01) and a random interleaving of 30 (quick) / 60 (thorough) "
+RULE = ("one case = one generated problem (same generator as C01) and a random interleaving of 26 (quick) / 50 (thorough) "
         "queries on ONE simulator instance over the states created so far: is_applicable+apply pairs in either order on a "
-        "random ground instance (36%), get_applicable_actions (14%), is_goal+get_unsatisfied_goals (14%), "
+        "random ground instance (36%), get_applicable_actions (11%), get_initial_state again (3%), is_goal+get_unsatisfied_goals (14%), "
         "get_unsatisfied_goals (8%), re-reading of a state (28%), and a final re-reading of every state. Every answer is "
         "compared with the pure model; the oracle repeats every query on a fresh simulator, re-reads the states and checks "
         "is_applicable == (apply is not None), get_applicable_actions == instances where apply succeeds, "
@@ -19,7 +19,7 @@ RULE = ("one case = one generated problem (same generator as C01) and a random i
         "on one ground fluent, or touches a bounded/invariant fluent, or reads an undefined fluent.")
 ASSUMPTIONS = [
     "same domain restrictions as C01 (non-zero constant divisors, supported kind, invariant-respecting initial state, "
-    "user-typed parameters, nested Exists, no Exists with an x == t conjunct on its bound variable, constants below 2**53)",
+    "user-typed parameters, nested Exists, constants below 2**53; Exists with an x == t conjunct on the bound variable only on a tree with C11's simplifier patch)",
     "until DagWalker.walk restores its stack/memo after an exception (C14's patch, auto-detected by simlib) the runner swaps in "
     "a fresh simulator after a failed evaluation and does not compare a get_applicable_actions call that died on the stale "
     "stack; with the patch merged the whole history runs on one instance",
@@ -29,14 +29,14 @@ MODELLED = [
     "purity is a theorem of the (stateless) model only; for the code it is what the interleaved correspondence and the "
     "fresh-simulator oracle sample",
 ]
-BUDGET_S = {"quick": 45, "thorough": 500}
+BUDGET_S = {"quick": 45, "thorough": 300}
 SEARCH_S = {"quick": 40, "thorough": 200}
 
 _cache = {}
 
 
 def make_case(rng, tier):
-    n_ops = 30 if tier == "quick" else 60
+    n_ops = 26 if tier == "quick" else 50
     while True:
         ps = simlib.gen_problem(rng)
         if ps is None:
@@ -50,7 +50,7 @@ def make_case(rng, tier):
 
 
 def cases(rng, tier):
-    n = 120 if tier == "quick" else 2500
+    n = 100 if tier == "quick" else 2000
     for _ in range(n):
         yield make_case(rng, tier)
 
